@@ -6,29 +6,29 @@ import os
 VERIF = os.path.dirname(os.path.dirname(os.path.abspath(__file__)))
 props = [json.loads(l) for l in open(os.path.join(VERIF, "properties.jsonl"))]
 T = {
-"C01": ("Every received-set (all subsets with >= k of the k+r shards) of every configuration in [1..5]^2 (thorough [1..6]^2, chunk-edge configurations to n=17, one n=20) x {high,low,default,ReedSolomon*,one-shot} x all engines incl. emulated Neon is decoded on the real code from soiled working space and compared with the original data (also with shards of 4162 to 16450 (65730) bytes); a grid of mid-size configurations around every chunk-size boundary up to 4097 (8193) and large/envelope configurations (transform size classes up to the whole field) by complete pattern families, including hyperplane-shaped losses on whole-field configurations.",
+"C01": ("Every received-set (all subsets with >= k of the k+r shards) of every configuration in [1..5]^2 (thorough [1..6]^2, chunk-edge configurations to n=17, one n=20) x {high,low,default,ReedSolomon*,one-shot} x all engines incl. emulated Neon is decoded on the real code from soiled working space and compared with the original data (also with shards of 4162 to 16450 (65730) bytes); a grid of mid-size configurations around every chunk-size boundary up to 4097 (8193) and large/envelope configurations (transform size classes up to the whole field) by complete pattern families, including hyperplane-shaped losses on whole-field configurations and 24 scattered erasure sets (exactly sufficient and with one surplus shard) wherever the work area reaches beyond position 32768; for 6 (11) mid-size configurations such as (70,70), (100,36), (36,100) every interval of missing originals, every pair of missing originals, every pair of recovery shards and every sub-cube loss {i : i & m == v} over all masks of the index bits (all chunk-, word- and stride-aligned patterns) through the rate codecs, ReedSolomon* and the one-shot functions; data with particular symbol values (zero shard, equal shards, 0xFFFF, equal halves).",
         "explicit-state enumeration of the received-set lattice on the real decoder"),
-"C02": ("The implementation's whole generator matrix is read back (basis-in-slots data for [1..64]^2 / [1..130]^2, unit vectors for a grid up to 4097 (8193) and for envelope configurations) and compared entry by entry with the closed form of the property computed by an independent field implementation; ancestor crate reed-solomon-16 as second oracle; every recovery byte of dense shards with short final blocks and of long shards (to 16 KiB, thorough 64 KiB), two rounds per encoder, against G*data. Per configuration the comparison is total (the matrix is the function).",
+"C02": ("The implementation's whole generator matrix is read back (basis-in-slots data for [1..64]^2 / [1..130]^2, unit vectors for a grid up to 4097 (8193) and for envelope configurations) and compared entry by entry with the closed form of the property computed by an independent field implementation; ancestor crate reed-solomon-16 as second oracle; every recovery byte of dense shards with short final blocks and of long shards (to 16 KiB, thorough 64 KiB), two rounds per encoder, against G*data, also for data made of particular symbol values (an all-zero shard, two equal shards, 0xFFFF, equal low/high halves, cycles of 0/1/0xFFFF/0x00FF/0xFF00/0x8000) on [1..8]^2 and mid-size configurations. Per configuration the comparison is total (the matrix is the function).",
         "small-scope exhaustive enumeration against a closed-form oracle"),
 "C03": ("Every engine against Naive: every truncated_size of every power-of-two size up to 2^10 (2^12), every size class up to 2^16 at 6 truncated sizes, 8 skew offsets, 2 positions, 1-3 and 65/130/257 blocks; every log_m for mul; sparse and identical-shard inputs; indicator families for eval_poly; encode + every exactly-k received-set end to end; guard shards unchanged.",
         "small-scope exhaustive enumeration of primitive arguments, differential between engines"),
 "C04": ("Every even shard size 2..132 (thorough ..260) plus big sizes (1022..131138 bytes, values that do not fit 16 bits, block counts with remainders), configurations on the edge of the envelope with short final blocks, every single missing original of mid-size configurations, and calls carrying several MiB: lengths, slots re-coded alone as 2-byte shards, G*data with the documented byte placement, decode patterns; soiled working space puts stale bytes into unused lanes.",
         "small-scope exhaustive enumeration with self-differential and closed-form oracles"),
-"C05": ("Every sequence of d<=2 (thorough 3) rounds on one object over 11 colliding configurations x {reset, implicit reset, recycle into high/low/default} x {completed, abandoned} earlier rounds x {fresh, soiled} start, plus all d=3 sequences over a reduced 7-member alphabet in the quick tier, every supported sequence of 2 (3) rounds over a second alphabet of mid-size and whole-field configurations, and for decoders every pair of received-set shapes (incl. mirrored ones whose bitmaps coincide across rates); last round compared with a fresh object and with the reference.",
+"C05": ("Every sequence of d<=2 (thorough 3) rounds on one object over 11 colliding configurations x {reset, implicit reset, recycle into high/low/default} x {completed, abandoned} earlier rounds x {fresh, soiled} start, plus all d=3 sequences over a reduced 7-member alphabet in the quick tier, every supported sequence of 2 (3) rounds over a second alphabet of mid-size and whole-field configurations, for decoders every pair of received-set shapes (incl. mirrored ones whose bitmaps coincide across rates), and every sequence of 4 rounds over 3 (4) colliding configurations x every transition x middle rounds completed/abandoned with rejected calls (wrong-length, duplicate, out-of-range and surplus adds with foreign bytes, rejected resets, early decode) injected in round 3 or 4, rounds joined by implicit resets also with structured data (zero shard, equal shards) in every round; last round compared with a fresh object and with the reference.",
         "explicit-state enumeration of round histories on the real objects, differential against a fresh object"),
-"C06": ("Breadth-first search over call histories (depth 4, thorough 6; repeated without state merging to depth 3 / 4) on all 8 codec types from 4 start configurations (+ a start with more than 1 MiB of working space, + a configuration whose two rate layouts differ in size), argument alphabet incl. hand-over of the working space to every other codec kind, with 0, off-by-one, usize::MAX and wrap-around indexes, wrong lengths, several violations at once; every observation must be in the reference model's set of truthful outcomes; the one-shot functions over 26 000 argument tuples; checked build (overflow checks on).",
+"C06": ("Breadth-first search over call histories (depth 4, thorough 6; repeated without state merging to depth 3 / 4) on all 8 codec types from 4 start configurations (+ a start with more than 1 MiB of working space, + a configuration whose two rate layouts differ in size), argument alphabet incl. hand-over of the working space to every other codec kind, with 0, off-by-one, usize::MAX, wrap-around indexes and aliases of index 0 under truncation to 8/16/32 bits, wrong lengths, several violations at once; every observation must be in the reference model's set of truthful outcomes; the one-shot functions over 26 000 argument tuples; checked build (overflow checks on).",
         "explicit-state BFS of API histories against a reference model, exact state merging plus an unmerged pass"),
-"C07": ("Twin runs: for every merged history h (depth<=2, thorough 3), every failing call f enabled after h and every continuation c (depth<=1, thorough 2, completed to a full round) the observations after h++[f]++c equal those after h++c call for call.",
+"C07": ("Twin runs: for every merged history h (depth<=2, thorough 3), every failing call f enabled after h and every continuation c (depth<=1, thorough 2, completed to a full round) the observations after h++[f]++c equal those after h++c call for call; rejected adds carry foreign bytes, encoder rounds alternate between sparse data (only the first shard non-zero) and dense data.",
         "explicit-state enumeration of histories with differential twin runs"),
-"C08": ("All 65538^2 (k,r) pairs for each of the 8 supports() entry points against the README predicate (whole domain), extremes to usize::MAX, validate/new/reset agreement at every staircase corner and neighbour x 7 shard sizes x 4 codec kinds, real round trips at supported corners.",
+"C08": ("All 65538^2 (k,r) pairs for each of the 8 supports() entry points against the README predicate (whole domain), extremes to usize::MAX (incl. 2^32+1, 2^32+2, 2^48+1: aliases of small counts under truncation), validate/new/reset agreement at every staircase corner and neighbour x 7 shard sizes x 4 codec kinds, real round trips at supported corners.",
         "whole-domain enumeration"),
 "C09": ("Default-rate encoder/decoder, ReedSolomonEncoder/Decoder and one-shot functions against the dedicated codec selected by the rule for every (k,r) in [1..40]^2 (thorough [1..130]^2 + power-of-two neighbours), a grid up to 4097 (8193), on generator-revealing data, also with short final blocks, long shards and 1-2 MiB shards through every layer; every sequence of up to 3 resets over a 9-member alphabet straddling the rule, each also with rejected resets interleaved.",
         "small-scope exhaustive enumeration + reset-history enumeration, differential between API layers"),
-"C10": ("Every argument tuple of encode()/decode() over 8 count pairs and all original/recovery lists up to the length bound over (index alphabet) x (5 shard classes), compared with the equivalent streaming sequence and with the set of truthful errors; unsupported count pairs (also inside 1..65536 with a sum of at most 65536) with complete valid input; every ordered pair of calls from a reduced alphabet on one fresh thread (the second call must behave like a first).",
+"C10": ("Every argument tuple of encode()/decode() over 8 count pairs and all original/recovery lists up to the length bound over (index alphabet) x (5 shard classes), compared with the equivalent streaming sequence and with the set of truthful errors; unsupported count pairs (also inside 1..65536 with a sum of at most 65536) with complete valid input; every ordered pair of calls from a reduced alphabet on one fresh thread (the second call must behave like a first); every original_count 1..140 (300) x recovery_count {1,3,64} with complete / empty / one-short inputs (the short-cut paths) and every pair of missing originals of (100,10) and (70,70); every call is made under three size_hint behaviours of the argument iterators (exact, loose upper bound, unknown).",
         "small-scope exhaustive enumeration of argument tuples and call pairs, differential against the streaming API"),
-"C11": ("Explicit-state search of the received-set lattice with concrete-state merging: every order of every subset for all (k,r) with k+r<=7 (thorough 10); every state with >= k shards decoded; unmerged cross-checks: all permutations for k+r<=5 (6) and every ordered k- and (k+1)-tuple of shards for skewed configurations such as (3,8), (2,12), (3,17).",
+"C11": ("Explicit-state search of the received-set lattice with concrete-state merging: every order of every subset for all (k,r) with k+r<=7 (thorough 10); every state with >= k shards decoded; unmerged cross-checks: all permutations for k+r<=5 (6) and every ordered k- and (k+1)-tuple of shards for skewed configurations such as (3,8), (2,12), (3,17); on configurations whose work area reaches beyond position 32768, 12 scattered erasure sets each exactly sufficient and with one surplus shard, in two arrival orders.",
         "explicit-state search with exact state merging, plus unmerged order enumeration"),
-"C12": ("Accessor contracts (index arguments to usize::MAX, iterator order and exhaustion; nth, skip, step_by, count, last, size_hint after every consumed prefix) after every encode and in every decodable received-set for k+r<=5 (7) (surplus sets in two add orders), for every single missing original of mid-size configurations, every ordered pair (triple) of received-sets and 6 consecutive rounds on one object separated only by dropping the result, 6-round histories on configurations up to the whole field, and runs of 1100 (70000) consecutive rounds; checked build.",
+"C12": ("Accessor contracts (index arguments to usize::MAX and aliases of valid indexes under truncation to 8/16/32/48 bits, iterator order and exhaustion; nth, skip, step_by, count, last, size_hint after every consumed prefix) after every encode and in every decodable received-set for k+r<=5 (7) (surplus sets in two add orders), for every single missing original of mid-size configurations, every ordered pair (triple) of received-sets and 6 consecutive rounds on one object separated only by dropping the result, 6-round histories on configurations up to the whole field, and runs of 1100 (70000) consecutive rounds; checked build.",
         "explicit-state enumeration of result states and round sequences"),
 "C13": ("Oracle-free: zero, every symbol value on every coordinate axis, every weight<=3 combination of basis vectors, every field constant times basis vectors, dense pairs, deltas confined to one 64-byte block of one shard and identical shards against their decomposition (192/200-byte shards); [1..5]^2 (thorough [1..9]^2 + (33,3),(3,33)) x {high,low} x 5 engines.",
         "small-scope exhaustive enumeration of linear relations (oracle-free)"),
@@ -36,9 +36,9 @@ T = {
         "exhaustive enumeration of environment answers (feature masks) with an execution-trace monitor"),
 "C15": ("Every table entry (exp, log, skew, log-Walsh by definition, Mul16, Mul128); all 2^32 (symbol, log_m) pairs per engine; fft/ifft against evaluation in the LCH basis for n<=6 (thorough 10, and 11-12) at every truncated_size, every size class up to 2^16 and shards of 65-257 blocks on every engine; eval_poly against the sum-of-logs formula for unit vectors (all 65536 in thorough), pairs, prefixes, every decoder-built erasure vector, and ~400 (~2000) large structured vectors (hyperplane halves, residue classes, blocks, random densities, complements) against an exact XOR-convolution reference.",
         "whole-domain / small-scope exhaustive enumeration against definitions"),
-"C16": ("Repository source re-targeted onto shuttle; own iterative-context-bounding DFS scheduler: every schedule of the 2-thread scenarios and every schedule with <=2 (3) preemptions of the 3-thread and hand-over scenarios; each execution compared thread by thread (different data and erasure pattern per thread) with sequential use; deadlocks and panics reported; first use of every table family races in every execution, also two threads on the same table; the port adds scheduling points at reference counting and after atomic writes; available_parallelism is answered by the harness (2).",
+"C16": ("Repository source re-targeted onto shuttle; own iterative-context-bounding DFS scheduler: every schedule of the 2-thread scenarios and every schedule with <=2 (3) preemptions of the 3-thread and hand-over scenarios; each execution compared thread by thread (different data and erasure pattern per thread) with sequential use; deadlocks and panics reported; first use of every table family races in every execution, also two threads on the same table; threads that exit while a thread-local slot of their own owns codecs (both destructor orders); the port adds scheduling points at reference counting and after atomic writes; available_parallelism is answered by the harness (2).",
         "controlled-scheduler exploration of thread interleavings (bounded-preemption DFS, real code)"),
-"C17": ("Counting global allocator; every history of <=2 (3) steps over {round, abandoned round, reset, recycle into high/low/default} after the object holds the maximum, for four families (32 KiB shards, 512 KiB shards / multi-MiB working space, thousands of shards, equal block counts with and without a short final block after a warm-up with the layout-dominant member only), executed at two scales (shard sizes doubled / counts doubled): bytes allocated in the measured region must not grow with scale; positive control in every run.",
+"C17": ("Counting global allocator; every history of <=2 (3) steps over {round, abandoned round, reset, recycle into high/low/default} after the object holds the maximum, for five families (32 KiB shards, 512 KiB shards / multi-MiB working space, thousands of shards, and - after a warm-up with the layout-dominant member only - equal block counts with and without a short final block, and received-map positions where a member with fewer positions has more recovery shards or both counts in one power-of-two class), executed at two scales (shard sizes doubled / counts doubled): bytes allocated in the measured region must not grow with scale; positive control in every run.",
         "explicit-state enumeration of histories with an allocation monitor, scale-differential"),
 }
 N = {
@@ -58,7 +58,7 @@ N = {
 "C14": "Mask can only hide features this CPU has; trace points sit in every existing target_feature entry point (a new untraced entry point would be invisible, reported as machinery error when nothing is traced).",
 "C15": "fft/ifft beyond n=10 only at decoder shapes and sampled output points; not all 2^65536 indicator vectors (structured families + linearity in the indicator).",
 "C16": "Scheduling points = shuttle sync/thread/lazy operations; sequentially consistent; unsynchronised accesses (static mut, UnsafeCell) have no scheduling point of their own (the window after an atomic write has one); std's LazyLock modelled by shuttle's blocking Once.",
-"C17": "Allocation on the measuring thread only; criterion is growth with scale, so constant allocations are never reported. The block-count family takes the need of a configuration from the documented layout (positions x ceil(bytes/64)).",
+"C17": "Allocation on the measuring thread only; criterion is growth with scale, so constant allocations are never reported. The block-count and bitmap-layout families take the need of a configuration from the documented layout (positions x ceil(bytes/64)).",
 }
 checks = []
 for p in props:
@@ -90,7 +90,7 @@ m = {
     ],
     "checks": checks,
     "not_applicable": [],
-    "notes": "All checks rebuild from /repo's working tree (path dependency / regenerated port). Fix commits in /repo: bbcb13b c25c625 a448b44 (see known_findings.json). Seeded changes and which checks catch them: seeded/README.md.",
+    "notes": "All checks rebuild from /repo's working tree (path dependency / regenerated port). Fix commits in /repo: bbcb13b c25c625 a448b44 (see known_findings.json). Seeded changes (six rounds) and which checks catch them: seeded/README.md.",
 }
 json.dump(m, open(os.path.join(VERIF, "MANIFEST.json"), "w"), indent=1)
 print("MANIFEST.json written")
